@@ -41,6 +41,8 @@ type bbCfg struct {
 	batch string // size | delay | both | latest | none
 	rwq   bool
 	pos   bool
+
+	ownOnly bool // harness batchend (C13): report only the connection's own join / leave
 }
 
 func (c bbCfg) name() string {
@@ -96,6 +98,9 @@ func bbVariants(tier string) []vsched.Variant {
 		} {
 			bbAdd(&out, c, "p1", 1, 75)
 		}
+		// the unsubscribe command arrives while the subscribe is still in flight (callback completed by
+		// another thread): it parks on the wait gate, the subscription goes live, its own join is batched
+		bbAdd(&out, bbCfg{path: "async", actor: "sub,unsub", racer: "pub2", batch: "delay"}, "p0", 2, 75)
 		return out
 	}
 	seen := map[string]bool{}
@@ -161,6 +166,40 @@ func init() {
 			"while a publisher thread publishes 2-3 publications (non-positioned, or positioned with history) and/or another connection joins and leaves; batch timers may fire first within SetHorizon(20ms), then Advance flushes every batch; oracle C10 on A's ordered frames: no publication/join/leave push for ch before the subscribe reply (or subscribe push) and none after the unsubscribe reply (or unsubscribe push) until the next bracket opens",
 		Variants: bbVariants,
 		Sched:    func(v vsched.Variant) func() { return bbBody(bbCfgs[v.Name]) },
+	})
+}
+
+// batchend (C13, "nothing buffered for a channel is delivered after the subscription ended") at
+// connection level: the subscription's own join is buffered by the subscribe itself, before an
+// unsubscribe that waited for it tears the subscription down. Same body as bracketbatch; only
+// pushes produced by the connection's own subscribe / unsubscribe are judged (a push that was
+// added after the end is the C10 bracket race, recorded there).
+var beCfgs = map[string]bbCfg{}
+
+func beVariants(tier string) []vsched.Variant {
+	var out []vsched.Variant
+	b := 0
+	if tier == "thorough" {
+		b = 1
+	}
+	for _, batch := range []string{"delay", "both", "latest"} {
+		for _, pos := range []bool{false, true} {
+			for _, path := range []string{"async", "client"} {
+				c := bbCfg{path: path, actor: "sub,unsub", racer: "pub2", batch: batch, pos: pos, ownOnly: true}
+				beCfgs[c.name()] = c
+				out = append(out, vsched.Variant{Name: c.name(), Bound: b, Shards: 2, BudgetS: 100})
+			}
+		}
+	}
+	return out
+}
+
+func init() {
+	vsched.Register(&vsched.Harness{
+		Name: "batchend", Props: []string{"C13"}, Kind: "sched",
+		Doc:      "connection level: per-channel batching (MaxDelay 10ms, with MaxSize 2, with FlushLatestPublication) on a channel with pushed join/leave; the connection's reader subscribes (callback completed synchronously or by another thread) and unsubscribes at once - the unsubscribe waits for the in-flight subscribe, whose own join is already buffered - while two publications are published; oracle: the connection's own join / leave is never written after the unsubscribe reply",
+		Variants: beVariants,
+		Sched:    func(v vsched.Variant) func() { return bbBody(beCfgs[v.Name]) },
 	})
 }
 
@@ -337,6 +376,21 @@ func bbBody(cfg bbCfg) func() {
 					when = "after-close"
 				}
 				sig := "push-outside-bracket:" + when + ":" + pathName + ":" + posName + ":" + mode
+				// the connection's own join / leave is produced by its own subscribe / unsubscribe, in
+				// that operation's thread: it cannot be a push that merely raced the end of the bracket
+				// (with ReplyWithoutQueue the directly written reply overtakes every queued push, the
+				// connection's own join included: that stays the recorded reply-without-queue class)
+				own := false
+				if r.Push.Join != nil && r.Push.Join.Info.GetClient() == act.c.ID() && !cfg.rwq {
+					sig += ":own-join"
+					own = true
+				} else if r.Push.Leave != nil && r.Push.Leave.Info.GetClient() == act.c.ID() && !cfg.rwq {
+					sig += ":own-leave"
+					own = true
+				}
+				if cfg.ownOnly && !own {
+					continue // batchend (C13) judges only what was buffered before the subscription ended
+				}
 				if !reported[sig] {
 					reported[sig] = true
 					vsched.Failf(sig, "%s push for %s outside a subscription bracket (%s) [%s, batch config %+v]: %s", kind, bbCh, when, cfg.name(), cfg.batchConfig(), all)
